@@ -78,6 +78,7 @@ func loadContracts(repo, verifDir string) (*Contracts, error) {
 			fs.Ensures = append(fs.Ensures, r)
 		}
 	}
+	allContracts = cs
 	return cs, nil
 }
 
